@@ -32,7 +32,8 @@ ASSUMPTIONS = ['the documented rules as written in vpx/models/rglob.py are the s
                'component matcher is cross-checked against fnmatch on a corpus at import of the check']
 EXHAUSTIVE = True
 TOK = ['a', 'b', '*', '**']
-MULTI = ['a/**/b/**/a', '**/a/**', '**/**/a', 'a/**/**/b', '*/**/a/*', '**/a/**/b/**', 'a/*/**/b']
+MULTI = ['a/**/b/**/a', '**/a/**', '**/**/a', 'a/**/**/b', '*/**/a/*', '**/a/**/b/**', 'a/*/**/b',
+         '**/*/**/a', 'a/**/*/**/b']
 DIRPATS = ['a/*/', '**/', 'a/**/b/', '*/']
 FILTERS = [
     {'include': ['a/**/b', 'b/*'], 'exclude': ['c'], 'extra': ['a']},
@@ -46,6 +47,8 @@ WALKS = [
     {'include': ['a/**'], 'exclude': ['a/'], 'extra': []},
     {'include': ['**/'], 'exclude': [], 'extra': ['b']},
     {'include': ['a/*/b', '**/a/*'], 'exclude': [], 'extra': []},
+    # nested literal prefixes plus a sibling that sorts between them as a string
+    {'include': ['a/*', 'a./*', 'a/a/*'], 'exclude': [], 'extra': [], 'yname': 'a.'},
 ]
 
 
@@ -106,6 +109,8 @@ def obligations(tier, kf):
     obs.append(Ob('g_match', {'pattern': '**/a', 'M': 3}, 300).mutant('glob_starstar_needs_one'))
     obs.append(Ob('w_walk', dict(WALKS[1], nodes=7), 600).mutant('filter_exclude_not_recursive'))
     obs.append(Ob('w_walk', dict(WALKS[0], nodes=7), 600).mutant('find_cache_drops_last'))
+    obs.append(Ob('w_walk', dict(WALKS[5], nodes=7), 600).mutant('uniquetrees_string_sort'))
+    obs.append(Ob('g_match', {'pattern': '**/*/**/a', 'M': 4}, 300).mutant('glob_starstar_flag_sticky'))
     return obs
 
 
